@@ -185,6 +185,12 @@ _ext("C16", "similarity compares the elided flag; -rel-path implies -rebase on a
 _ext("C18", "the existence probe follows symbolic links")
 _ext("C19", "receiver exclusion reasons; nil tests for the loaded file and the declaration; the declaration remembered starts before the line")
 _ext("C20", "scalar part of the similarity key (lock flag); augmentation nil tests")
+# round 10 additions
+_ext("C03", "every word of a frame is taken through the nil-tolerant pop helpers (AUG-words)")
+_ext("C06", "data delivered together with an error is split like any other; exactly one goroutine is First (totality of the bucket order)")
+_ext("C10", "the pending read error is returned with the unterminated rest")
+_ext("C16", "the creator is left out only for an empty creation stack")
+_ext("C18", "the files skipped as explained by GOROOT are those updateLocations resolves through it")
 for k in list(CLAIMED): NA.pop(k, None)
 try:
     exec(open(os.path.join(V, "tools", "manifest_table.py")).read())
